@@ -23,7 +23,7 @@ ASSUMPTIONS = [
     "termination is decided on logical steps (read/recv calls <= 3*len+16), never on wall-clock",
 ]
 GATES = ["frames_compared", "backend:file", "backend:buffered", "backend:socket", "kind:len0", "kind:len1023",
-         "kind:len1", "kind:len2-4076"]
+         "kind:len1", "kind:len2-4076", "kind:ubxbig"]
 
 KINDS = ("defined", "defined", "defined", "unknown", "unknown", "len0", "len1", "len2", "len2-4076", "len255",
          "len256", "len1022", "len1023", "defmax")
@@ -42,7 +42,10 @@ def make_items(rng, n=None, adversarial=None):
         elif k < 0.70:
             items.append(("nmea", streams.nmea(rng), None))
         elif k < 0.85:
-            items.append(("ubx", streams.ubx(rng, 4096 if rng.random() < 0.1 else 200, dense=rng.random() < 0.5), None))
+            if rng.random() < 0.04:
+                items.append(("ubxbig", streams.ubx_big(rng), None))
+            else:
+                items.append(("ubx", streams.ubx(rng, 4096 if rng.random() < 0.1 else 200, dense=rng.random() < 0.5), None))
         else:
             items.append(("noise", streams.inert_noise(rng), None))
     # static messages repeat verbatim; a different frame may carry the same CRC trailer
